@@ -209,6 +209,7 @@ type pathExec struct {
 	shaConcreteOverflow bool
 	inBlocked int
 	sleeps    int
+	blockedRetries int
 	dbg       []string
 	prefer    *term // witness preference for the next assertion (model selection only)
 	fmtSymbolic bool
@@ -562,8 +563,12 @@ func (ex *pathExec) reach(label string) {
 // onBlocked gives the harness a chance to run other units when the current
 // one would block.  Returns true if the operation should be retried.
 func (ex *pathExec) onBlocked(fr *frame, what string, ch *channel) bool {
-	if ex.hooks.onBlocked == nil || ex.inBlocked > 4 {
-		return false
+	if ex.hooks.onBlocked == nil || ex.inBlocked > 0 {
+		return false // no hook, or already inside the hook (units run by the hook simply block)
+	}
+	ex.blockedRetries++
+	if ex.blockedRetries > 100000 {
+		panic(engineError{"livelock: OnBlocked hook keeps asking for retries without progress (" + what + ")"})
 	}
 	ex.inBlocked++
 	defer func() { ex.inBlocked-- }()
